@@ -678,8 +678,12 @@ func init() {
 				// symbolic pattern: opaque compiled object keyed by the pattern bytes
 				okT := ufOnStr("re_compiles", KBool, 0, args[0].(Str))
 				if must {
-					if !ex.decide(okT) {
-						ex.goPanic("regexp: Compile: error (symbolic pattern)")
+					// MustCompile of a symbolic pattern: the harness restricts the
+					// pattern to a shape that always compiles (the native replay
+					// panics otherwise and the model is discarded as a mismatch)
+					ex.stub("regexp.MustCompile on symbolic pattern: assumed to compile")
+					if ex.x != nil {
+						ex.x.assume(okT)
 					}
 					return ex.nativePtr(Native{&symRegexp{pat: args[0].(Str)}})
 				}
